@@ -187,7 +187,13 @@ class Program:
             return ('path', PRELUDE[nm], args)
         if '::' not in nm and nm[:1].isupper():
             # a type named in the impl header without a path: declared in (or imported into) this module; the dump
-            # prints the definition path, which ends in ::nm.  same_name() accepts the suffix relation.
+            # prints the definition path, which ends in ::nm.  Qualify when the declaration site is unambiguous.
+            decls = [d.module for d in self.src.enums.get(nm, [])] + [m_ for m_, _ in self.src.structs.get(nm, [])]
+            here = [m_ for m_ in decls if m_ == module]
+            if len(here) == 1:
+                return ('path', module + '::' + nm, args)
+            if len(decls) == 1:
+                return ('path', decls[0] + '::' + nm, args)
             return ('path', nm, args)
         return ('path', nm, args)
 
@@ -260,6 +266,7 @@ class Interp:
         self.const_cache = {}
         self.max_depth = 400
         self.ext_consts = {}
+        self.const_generic_defaults = {}
 
     # ------------------------------------------------------------------ solver
     def _sync(self, pc):
@@ -559,6 +566,13 @@ class Interp:
             if nm not in self.p.fns:
                 raise Unsupported('promoted const ' + c + ' in ' + base)
             return self.eval_const(nm, st, fr.tenv)
+        if ('#const:' + c) in fr.tenv:
+            return fr.tenv['#const:' + c]
+        if c in self.const_generic_defaults and re.fullmatch(r'[A-Z][A-Z0-9_]*', c):
+            t = fr.tenv.get(c)
+            if t is not None and t[0] == 'path' and re.fullmatch(r'\d+', t[1]):
+                return bv(int(t[1]), 64)
+            return self.const_generic_defaults[c]
         if c in self.ext_consts:
             return self.ext_consts[c](self, st)
         # unit-like / tuple constant of an ADT:  path::Name  |  path::Name(()) | path::Name {{ .. }}
